@@ -49,13 +49,28 @@ def main():
         rewritten = any(e["k"] == "pipe" and e["before"] != e["after"] for e in run["trace"])
         if after != c["src"] and rewritten: pairs.append((j, after))
         else: unchanged[c["cid"]] += 1
+    # second wave: programs in which the codemod rewrote several lines are run again with ONE of those lines excluded (--path-exclude code.py:N):
+    # a partially applied refactoring must preserve behaviour just the same
+    from vf.runner import line_filter_followups
+    rnd_f = random.Random(f"C08:followup:{seed}")
+    by_id = {j["id"]: (j, r) for j, r in zip(jobs, res)}
+    more = []
+    for j, after in pairs:
+        for j2 in line_filter_followups(j, by_id[j["id"]][1], rnd_f, per_job=2):
+            c2 = dict(j["case"]); c2["shape"] = c2["shape"] + "/one-line-excluded"; j2["case"] = c2; more.append(j2)
+    if len(more) > (150 if not full else 1500): more = rnd_f.sample(more, 150 if not full else 1500)
+    res2 = run_jobs(more, timeout=300) if more else []
+    for j, r in zip(more, res2):
+        if r.get("status") != "ok" or r["runs"][0]["rc"] != 0 or r["runs"][0]["exc"]: inconcl += 1; continue
+        after = unb(r["runs"][0]["tree"]["code.py"][2:]).decode("utf-8", "replace")
+        if after != j["case"]["src"]: pairs.append((j, after))
     with cf.ThreadPoolExecutor(int(os.environ.get("VF_WORKERS", "14"))) as ex:
         outs = list(ex.map(lambda p: compare(p[0]["case"], p[1]), pairs))
     viols = []; nontrivial = set(); fired = collections.Counter(); samples = []; by_shape = collections.Counter(); ndis = 0
     for (j, after), (o1, o2) in zip(pairs, outs):
         c = j["case"]
         if o1 is None or o2 is None: inconcl += 1; continue
-        nontrivial.add((c["cid"], c["src"])); fired["fired:" + c["cid"]] += 1; by_shape[key_of(c)] += 1
+        nontrivial.add((c["cid"], c["src"], j.get("excluded_line"))); fired["fired:" + c["cid"]] += 1; by_shape[key_of(c)] += 1
         if o1 != o2:
             ndis += 1
             viols.append(Violation("C08", key_of(c), f"{c['cid']} template {c['template']}: original -> {o1!r:.200}; rewritten -> {o2!r:.200}",
